@@ -228,20 +228,37 @@ func (g *Gen) fill(kind string, p *Program) Op {
 				op.I[1] = []int64{-2, -100, math.MinInt64, math.MinInt32}[g.R.N(4)]
 			}
 		}
+		if g.R.P(1, 10) {
+			dec, verb, prec := g.keptPrefix()
+			if verb == 'F' {
+				verb = 'f'
+			}
+			op.D, op.I = []string{dec}, []int64{int64(verb), int64(prec)}
+		}
 	case "AppendFn":
 		op.D = []string{d()}
 		op.I = []int64{int64("eEfgG"[g.R.N(5)]), g.precArg(), g.slot(nBufs), int64(g.R.N(3) / 2)}
+		if g.R.P(1, 10) {
+			dec, verb, prec := g.keptPrefix()
+			if verb == 'F' {
+				verb = 'f'
+			}
+			op.D, op.I[0], op.I[1] = []string{dec}, int64(verb), int64(prec)
+		}
 	case "AppendM":
 		op.D = []string{d()}
 		op.S = []string{g.Spec(verbsF+"v", g.maxWP())}
 		op.I = []int64{g.slot(nBufs), int64(g.R.N(3) / 2)}
+		g.keptPrefixSpec(&op)
 	case "Sprintf":
 		op.D = []string{d()}
 		op.S = []string{g.Spec(verbsF+"v", g.maxWP())}
 		op.I = []int64{int64(g.R.N(3)), g.slot(nBufs)}
+		g.keptPrefixSpec(&op)
 	case "FormatState", "AppendVsSprintf":
 		op.D = []string{d()}
 		op.S = []string{g.Spec(verbsF, g.maxWP())}
+		g.keptPrefixSpec(&op)
 		if kind == "FormatState" && g.R.P(1, 3) {
 			// a State need not answer 0 for an absent width or precision, and
 			// its Write may refuse bytes
@@ -361,6 +378,9 @@ func (g *Gen) jsonToken() string {
 	case 3:
 		return g.Literal(false)
 	case 4:
+		if g.R.P(1, 3) {
+			return g.ByteRun()
+		}
 		return g.LookAlike()
 	}
 	return g.jsonNumberLit()
@@ -864,12 +884,43 @@ func genP10(g *Gen, p *Program) {
 	}
 }
 
+// keptPrefixSpec replaces, in one call of ten, the operand and the directive
+// of a formatting operation by a pair drawn together (keptPrefix).
+func (g *Gen) keptPrefixSpec(op *Op) {
+	if !g.R.P(1, 10) {
+		return
+	}
+	dec, verb, prec := g.keptPrefix()
+	var flags string
+	for _, c := range "+-# 0" {
+		if g.R.P(1, 6) {
+			flags += string(c)
+		}
+	}
+	w := ""
+	if g.R.P(1, 3) {
+		w = fmt.Sprint(g.R.Range(1, 45))
+	}
+	op.D = []string{dec}
+	op.S = []string{fmt.Sprintf("%s%s.%d%c", flags, w, prec, verb)}
+}
+
 // boundDec returns a Decimal near a bound of int32/int64/uint32/uint64 or
 // just below an integer.
 func (g *Gen) boundDec() string {
 	bounds := []string{"2147483647", "2147483648", "4294967295", "4294967296", "9223372036854775807", "9223372036854775808", "18446744073709551615", "18446744073709551616", "0", "1",
 		"1000000000", "10000000000", "1000000000000000000", "10000000000000000000", "100000000000000000000", "2000000000", "4000000000", "5000000000",
 		"9000000000000000000", "18000000000000000000", "20000000000000000000", "9300000000000000000", "18446744073709551610", "9223372036854775800"}
+	if g.R.P(1, 8) {
+		// a coefficient m*2^j with a positive exponent e: the scaled integer
+		// m*5^e*2^(j+e) is a multiple of 2^64 or 2^128
+		j := uint(g.R.Range(40, 113))
+		c := new(big.Int).Lsh(big.NewInt(int64(1+g.R.N(8))), j)
+		if c.Cmp(ref.CMax) > 0 {
+			c.Lsh(big.NewInt(1), j)
+		}
+		return Hex(DecOf(ref.Num{Neg: g.R.P(1, 2), Coef: c, Exp: g.R.Range(0, 40)}))
+	}
 	b := bounds[g.R.N(len(bounds))]
 	s := b
 	switch g.R.N(5) {
